@@ -140,7 +140,7 @@ func (g *G) callFn(cl *Closure, args []Value, caller *Frame, pos token.Pos) Valu
 		g.inconclusive("unmodelled external function " + fn.String())
 	}
 	inInit := caller != nil && caller.fn != nil && (caller.fn.Synthetic == "package initializer" || strings.HasPrefix(caller.fn.Name(), "init#")) && fnPkgPath(caller.fn) == pk
-	if isDeniedPkg(pk) && !inInit && !interpretAllow[fn.String()] {
+	if isDeniedPkg(pk) && !inInit && !interpretAllow[fn.String()] && !isTypedAtomicMethod(fn) {
 		g.inconclusive("unmodelled call into " + fn.String())
 	}
 	return g.callSSA(fn, args, cl.Env, caller, pos)
